@@ -1,5 +1,5 @@
 CONSTANTS
-  Triggers = {"unit", "u8", "u32", "U53", "datetime", "generic_param", "mapped_bytes", "user_enum"}
+  Triggers = {"unit", "u8", "u32", "U53", "datetime", "generic_param", "mapped_bytes", "mapped_date", "user_enum"}
   Wrappers = {"vec", "option", "mapv", "array", "garg", "box"}
   MaxDepth = 2
   Positions = {"field", "field_default", "vfield_default", "payload", "alias", "vfield"}
